@@ -30,6 +30,7 @@
 -/
 import PyTough.Model.Locate
 import PyTough.Proofs.Locate
+import PyTough.Proofs.LocateWave
 
 namespace Props.C12
 open Model.Locate Proofs.Locate
@@ -138,6 +139,13 @@ theorem quadtree_leaf_exists (p : Pt) (t : QTree) :
     | false => rw [leaf_none p t hb] at hl; cases hl
   · exact leaf_some p t
 
+/-- `search_wave` in the model is given `len(all_elements) + len(elements) + 1` units of fuel; giving
+    it any more changes nothing, i.e. the model's loop always ends because the `todo` list empties
+    or the column is found — as the Python `while` loop does — never because the fuel ran out. -/
+theorem search_wave_fuel_suffices (g : Geo) (all : List Nat) (leaf : QTree) (p : Pt) (extra : Nat) :
+    searchWaveLoop g all leaf.bounds p (searchFuel all leaf.elements + extra) leaf.elements [] = searchWave g all leaf p :=
+  searchWave_fuel_enough g all leaf p extra
+
 /-! ### The block reported for a 3-D point -/
 
 /-- A reported block (layer `li`, column `ci`): `ci` is the column found for the horizontal
@@ -239,6 +247,16 @@ example : inPolygon (50, 50) [(0, 0), (100, 1/1000000000), (100, 100), (0, 100)]
 example : (buildQ demo quadFuel ((0, 0), (2, 1)) [0, 1]).map (fun t => t.child.map QTree.elements) = some [[0], [1]] := by
   decide +kernel
 example : (demoQT.map fun q => (q.root.leaf (3/2, 1/4)).map QTree.elements) = some (some [1]) := by decide +kernel
+-- why quadtree completeness is not a theorem: two islands (the column between them deleted); the leaf of
+-- a point of the right island holds only the left column, which has no neighbours: plain search finds
+-- column 1, the quadtree search returns None.  (The real code does the same: corpus case in the harness.)
+def islands : Geo :=
+  { cols := [ { poly := [(1, 0), (1, 1), (0, 1), (0, 0)], centre := (1/2, 1/2), surface := 0, nbrs := [] },
+              { poly := [(3, 0), (3, 1), (5/4, 1), (5/4, 0)], centre := (17/8, 1/2), surface := 0, nbrs := [] } ],
+    layers := [ ⟨0, 0⟩, ⟨-1, 0⟩ ] }
+example : columnContainingPoint islands (21/16, 1/4) {} = some 1 ∧
+          columnContainingPoint islands (21/16, 1/4) { qtree := columnQuadtree islands ((0, 0), (3, 1)) [0, 1] } = none := by
+  decide +kernel
 -- blocks: in a layer, under the raised surface, above everything, below everything
 example : blockContainingPoint demo (3/2, 1/4) (-2) none = .ok (some (2, 1)) := by decide +kernel
 example : blockContainingPoint demo (3/2, 1/4) (1/4) none = .ok (some (1, 1)) := by decide +kernel
